@@ -8,10 +8,13 @@ VERIF = vx.VERIF
 def make_replay(pid, label, failure, seed, plan, only_if_found=False):
     """Writes replays/<pid>-<label>.json naming the failed obligation and carrying the verifier output.
     Returns (path, found) where found says whether a concrete failing history on the real crate was found."""
-    found, history, cmd = search(pid, label, failure, seed, plan)
+    if failure.get("found_history") is not None:
+        found, history, cmd = True, failure["found_history"], "cd /verif/replay && " + str(failure.get("found_cmd"))
+    else:
+        found, history, cmd = search(pid, label, failure, seed, plan)
     if only_if_found and not found:
         return None, False
-    d = os.path.join(VERIF, "replays")
+    d = os.path.join(VERIF, "replays" if not os.environ.get("VERIF_NO_EVIDENCE") else "build/scratch-replays")
     os.makedirs(d, exist_ok=True)
     safe = "".join(ch if ch.isalnum() or ch in "._-" else "_" for ch in label)
     path = os.path.join(d, "%s-%s.json" % (pid, safe))
